@@ -339,12 +339,19 @@ def DT.set (v : DT) (p : SPiece) (n : Nat) : DT :=
 def SPiece.width : SPiece → Nat
   | .Y => 4 | .f => 6 | .lit _ => 0 | _ => 2
 
+/-- `\s` of Python's `re` on str patterns -/
+def isPyWs (c : Nat) : Bool :=
+  c = 32 || (9 ≤ c && c ≤ 13) || (28 ≤ c && c ≤ 31) || c = 133 || c = 160 || c = 5760
+    || (8192 ≤ c && c ≤ 8202) || c = 8232 || c = 8233 || c = 8239 || c = 8287 || c = 12288
+
 def strp : List SPiece → Str → DT → Option DT
   | [], [], acc => some acc
   | [], _ :: _, _ => none
   | .lit c :: ps, s, acc =>
     match s with
-    | x :: xs => if x = c then strp ps xs acc else none
+    | x :: xs =>
+      if isPyWs c then (if isPyWs x then strp ps (xs.dropWhile isPyWs) acc else none)   -- whitespace is `\s+`
+      else if x = c then strp ps xs acc else none
     | [] => none
   | p :: ps, s, acc =>
     let a := (takeDigits p.width s).1
